@@ -472,7 +472,7 @@ func renderTrace(evs []Event, intern func(string) string, collName func(string) 
 // singleTx states the structural half of C10 directly on a recorded fault-free trace: it is empty,
 // or it is exactly `begin … commit` with every write in between, no second top-level transaction,
 // balanced savepoints that are all released, and no rollback.
-func singleTx(evs []Event) string {
+func singleTx(evs []Event, allowDup bool) string {
 	if len(evs) == 0 {
 		return ""
 	}
@@ -511,7 +511,7 @@ func singleTx(evs []Event) string {
 				return fmt.Sprintf("write %s at call %d outside the transaction", evNames[e.Kind], i)
 			}
 		}
-		if e.Err != "" {
+		if e.Err != "" && !(allowDup && e.Kind == evInsert && strings.Contains(e.Err, anystore.ErrDocExists.Error())) {
 			return fmt.Sprintf("storage call %d (%s) failed: %s", i, evNames[e.Kind], e.Err)
 		}
 	}
